@@ -342,6 +342,19 @@ def check_rename_save(seed):
     gen = modelgen.Gen(seed)
     doc = gen.build()
     r = random.Random('c07r/%s' % seed)
+    # the renames come after nothing, after a first save() (every element is attached by then), or in the document loaded from the written file
+    stage = seed % 3
+    try:
+        if stage == 1:
+            doc.save()
+        elif stage == 2:
+            import collada
+            b0 = io.BytesIO()
+            doc.write(b0)
+            doc = collada.Collada(io.BytesIO(b0.getvalue()))
+    except Exception as e:
+        core.note_skip('c07:rename-stage', e)
+        return None
     n = 0
     for name in ('geometries', 'lights', 'cameras', 'images', 'effects', 'materials', 'nodes', 'scenes'):
         for o in getattr(doc, name):
